@@ -44,15 +44,18 @@ func (f *FHDR) decode(octets []byte, pos *int) error {
 	*pos += 2
 
 	if f.FCtrl.FOptsLen > 0 {
+		// The FOpts field is exactly FOptsLen bytes long [4.3.1.6], no matter
+		// what the MAC commands in it decode to (unknown, repeated or
+		// truncated commands included).
+		end := *pos + int(f.FCtrl.FOptsLen)
+		if len(octets) < end {
+			return ErrBufferTruncated
+		}
 		f.FOpts = NewMACCommandSet(f.FOpts.Message(), int(f.FCtrl.FOptsLen))
-		if err := f.FOpts.decode(octets, pos); err != nil {
-			if err == errUnknownMAC {
-				// Found an unknown MAC command. Skip forward the number of missing bytes
-				*pos += (int(f.FCtrl.FOptsLen) - f.FOpts.EncodedLength())
-				return nil
-			}
+		if err := f.FOpts.decode(octets, pos); err != nil && err != errUnknownMAC {
 			return err
 		}
+		*pos = end
 	}
 	return nil
 }
